@@ -22,6 +22,8 @@ pub enum Item {
     CheckOk,
     CheckFailing,
     NonUtf8,
+    /// parses, but the builder refuses it (a parameter that nothing binds)
+    FactUnbound,
     PolicyAllow,
     PolicyBad,
 }
@@ -64,13 +66,14 @@ fn item_src(i: Item) -> Vec<u8> {
         Item::CheckOk => b"check if right(\"file1\", \"read\")".to_vec(),
         Item::CheckFailing => b"check if right(\"nothing\", \"write\")".to_vec(),
         Item::NonUtf8 => vec![b'f', b'(', 0xff, 0xfe, b')'],
+        Item::FactUnbound => b"operation({op})".to_vec(),
         Item::PolicyAllow => b"allow if true".to_vec(),
         Item::PolicyBad => b"allow if".to_vec(),
     }
 }
 
 fn item_is_valid(i: Item) -> bool {
-    !matches!(i, Item::FactBad | Item::NonUtf8 | Item::PolicyBad)
+    !matches!(i, Item::FactBad | Item::NonUtf8 | Item::PolicyBad | Item::FactUnbound)
 }
 
 const SEED: [u8; 32] = [7u8; 32];
@@ -167,7 +170,7 @@ pub fn enabled(s: &St) -> Vec<COp> {
     }
     if s.bb.is_some() {
         if s.h_bb.len() < 3 {
-            for i in [Item::FactOk, Item::FactBad, Item::RuleOk, Item::CheckOk, Item::NonUtf8] {
+            for i in [Item::FactOk, Item::FactBad, Item::FactUnbound, Item::RuleOk, Item::CheckOk, Item::NonUtf8] {
                 v.push(COp::BuilderAdd(i));
             }
             v.push(COp::BuilderMeta);
@@ -193,7 +196,7 @@ pub fn enabled(s: &St) -> Vec<COp> {
     }
     if s.blk.is_some() && s.h_blk.len() < 3 {
         v.push(COp::BlockMeta);
-        for i in [Item::FactOk, Item::FactBad, Item::RuleOk, Item::CheckFailing, Item::NonUtf8] {
+        for i in [Item::FactOk, Item::FactBad, Item::FactUnbound, Item::RuleOk, Item::CheckFailing, Item::NonUtf8] {
             v.push(COp::BlockAdd(i));
         }
     }
@@ -202,7 +205,7 @@ pub fn enabled(s: &St) -> Vec<COp> {
     }
     if s.ab.is_some() {
         if s.h_ab.len() < 3 {
-            for i in [Item::FactOk, Item::FactBad, Item::RuleOk, Item::CheckFailing, Item::PolicyAllow, Item::PolicyBad, Item::NonUtf8] {
+            for i in [Item::FactOk, Item::FactBad, Item::FactUnbound, Item::RuleOk, Item::CheckFailing, Item::PolicyAllow, Item::PolicyBad, Item::NonUtf8] {
                 v.push(COp::AbAdd(i));
             }
         }
@@ -376,13 +379,13 @@ pub fn step(s: &mut St, op: COp) -> Result<(), String> {
                 let src = item_src(i);
                 let cs = cstr(&src);
                 let ok = match (op, i) {
-                    (COp::BuilderAdd(_), Item::FactOk | Item::FactBad | Item::NonUtf8) => c::biscuit_builder_add_fact(s.bb.as_deref_mut(), cs.as_ptr()),
+                    (COp::BuilderAdd(_), Item::FactOk | Item::FactBad | Item::NonUtf8 | Item::FactUnbound) => c::biscuit_builder_add_fact(s.bb.as_deref_mut(), cs.as_ptr()),
                     (COp::BuilderAdd(_), Item::RuleOk) => c::biscuit_builder_add_rule(s.bb.as_deref_mut(), cs.as_ptr()),
                     (COp::BuilderAdd(_), _) => c::biscuit_builder_add_check(s.bb.as_deref_mut(), cs.as_ptr()),
-                    (COp::BlockAdd(_), Item::FactOk | Item::FactBad | Item::NonUtf8) => c::block_builder_add_fact(s.blk.as_deref_mut(), cs.as_ptr()),
+                    (COp::BlockAdd(_), Item::FactOk | Item::FactBad | Item::NonUtf8 | Item::FactUnbound) => c::block_builder_add_fact(s.blk.as_deref_mut(), cs.as_ptr()),
                     (COp::BlockAdd(_), Item::RuleOk) => c::block_builder_add_rule(s.blk.as_deref_mut(), cs.as_ptr()),
                     (COp::BlockAdd(_), _) => c::block_builder_add_check(s.blk.as_deref_mut(), cs.as_ptr()),
-                    (COp::AbAdd(_), Item::FactOk | Item::FactBad | Item::NonUtf8) => c::authorizer_builder_add_fact(s.ab.as_deref_mut(), cs.as_ptr()),
+                    (COp::AbAdd(_), Item::FactOk | Item::FactBad | Item::NonUtf8 | Item::FactUnbound) => c::authorizer_builder_add_fact(s.ab.as_deref_mut(), cs.as_ptr()),
                     (COp::AbAdd(_), Item::PolicyAllow | Item::PolicyBad) => c::authorizer_builder_add_policy(s.ab.as_deref_mut(), cs.as_ptr()),
                     (COp::AbAdd(_), Item::RuleOk) => c::authorizer_builder_add_rule(s.ab.as_deref_mut(), cs.as_ptr()),
                     (_, _) => c::authorizer_builder_add_check(s.ab.as_deref_mut(), cs.as_ptr()),
@@ -719,7 +722,7 @@ pub fn all_ops() -> Vec<COp> {
     use COp::*;
     use Item::*;
     let mut v = vec![KeyNew(false), KeyNew(true), KeyPublic, KeyRoundTrip, PubRoundTrip, BuilderNew, BuilderMeta, BlockMeta, Build, Sizes, Serialize, SerializeSealed, FromOwn, FromTruncated, FromOtherRoot, Inspect, BlockNew, Append, AbNew, AbBuild, AbBuildUnauth, TokAuthorizer, Authorize, Nulls];
-    for i in [FactOk, FactBad, RuleOk, CheckOk, CheckFailing, NonUtf8, PolicyAllow, PolicyBad] {
+    for i in [FactOk, FactBad, FactUnbound, RuleOk, CheckOk, CheckFailing, NonUtf8, PolicyAllow, PolicyBad] {
         v.push(BuilderAdd(i));
         v.push(BlockAdd(i));
         v.push(AbAdd(i));
